@@ -160,6 +160,11 @@ def check_static(p, ctx):
                 continue
             try:
                 call(X.fsys.build_pressure_matrix, when=0)
+                if not infer.interface_graph_connected(X.fsys.pressure_matrices[0].lhs_matrix):
+                    # the pressure solution is only specified when the internal interfaces link all cells (C04)
+                    ctx.count("pressure-graph-disconnected(not compared)")
+                    pr = None
+                    break
                 call(X.fsys.solve_pressure, when=0, method="lagrange_pressure")
             except Exception as e:  # ForsysCrash
                 if "expecting 2" in str(e):
